@@ -290,7 +290,7 @@ theorem lock_prefix (R : List Str) (f : Str) (hf : isAbs f = true)
   simp only [normStack, List.foldl_append, List.foldl_cons, List.foldl_nil] at hpre hstrict ⊢
   generalize init.foldl (normStep true) [] = S at hpre hstrict ⊢
   have hpush : normStep true S (last ++ lockSuffix) = (last ++ lockSuffix) :: S := by
-    have h5 : (last ++ lockSuffix).length ≥ 5 := by simp [lockSuffix]
+    have h5 : (last ++ lockSuffix).length ≥ 3 := by simp [lockSuffix]
     have n1 : last ++ lockSuffix ≠ [] := by intro e; rw [e] at h5; simp at h5
     have n2 : last ++ lockSuffix ≠ dot := by intro e; rw [e] at h5; simp [dot] at h5
     have n3 : last ++ lockSuffix ≠ dotdot := by intro e; rw [e] at h5; simp [dotdot] at h5
@@ -364,5 +364,299 @@ theorem strPrefix_session_counterexample :
       ¬ (components "/t/sess".toList <+:
           components (normpath (sessionFile "/t/sess".toList "/../../sess-evil/victim".toList))) := by
   decide
+
+/-! ### clean_up and the per-request flow -/
+
+theorem regular_of_prefix (fname : Str) (hpre : startsWith fname sessionPrefix = true) :
+    fname ≠ [] ∧ fname ≠ dot ∧ fname ≠ dotdot ∧ isAbs fname = false := by
+  obtain ⟨t, rfl⟩ := List.isPrefixOf_iff_prefix.1 hpre
+  refine ⟨by simp [sessionPrefix], by simp [sessionPrefix, dot], by simp [sessionPrefix, dotdot],
+    by simp [sessionPrefix, isAbs]⟩
+
+/-- A directory entry named `session-…` joined onto the storage path is one component below it. -/
+theorem cleanup_entry (sp fname : Str) (hsp : isAbs sp = true) (hns : '/' ∉ fname)
+    (hpre : startsWith fname sessionPrefix = true) :
+    components (normpath (join sp fname)) = components (normpath sp) ++ [fname] := by
+  obtain ⟨h1, h2, h3, h4⟩ := regular_of_prefix fname hpre
+  have hj : isAbs (join sp fname) = true := isAbs_join sp fname hsp
+  rw [normpath_abs_components _ hj, normStack_join sp fname hsp h4, splitSlash_noslash fname hns,
+    normpath_abs_components sp hsp]
+  simp [normStep, h1, h2, h3]
+
+/-- **C11, clean_up.**  The sweep lists the storage directory and locks / loads / unlinks only
+    paths one component below it (directory entries contain no '/'). -/
+theorem C11_cleanup_contained (cwd storage : Str) (hcwd : isAbs cwd = true)
+    (listing : List (Str × Stored)) (hl : ∀ e ∈ listing, '/' ∉ e.1) :
+    ∀ a ∈ cleanUp (sessionRoot cwd storage) listing, Under (sessionRoot cwd storage) a.path := by
+  obtain ⟨X, hX, hsp⟩ := sessionRoot_eq cwd storage hcwd
+  rw [hsp]
+  have habs : isAbs (normpath X) = true := normpath_abs_isAbs X hX
+  intro a ha
+  unfold cleanUp at ha
+  rcases List.mem_cons.1 ha with rfl | ha
+  · exact under_of_abs _ _ habs (List.prefix_refl _)
+  · obtain ⟨e, he, hae⟩ := List.mem_flatMap.1 ha
+    obtain ⟨fname, stt⟩ := e
+    simp only at hae
+    split at hae
+    · rename_i hc
+      have hent := cleanup_entry (normpath X) fname habs (hl _ he) hc.1
+      have hj : isAbs (join (normpath X) fname) = true := isAbs_join _ _ habs
+      have hpath : Under (normpath X) (join (normpath X) fname) :=
+        under_of_abs _ _ hj (by rw [hent]; exact List.prefix_append _ _)
+      have hlock : Under (normpath X) (join (normpath X) fname ++ lockSuffix) := by
+        refine under_of_abs _ _ (isAbs_append _ _ hj) ?_
+        refine lock_prefix _ _ hj (by rw [hent]; exact List.prefix_append _ _) (.inr ?_)
+        rw [hent]; intro e'
+        have := List.append_right_eq_self.1 e'
+        simp at this
+      simp only [List.mem_append, List.mem_cons, List.not_mem_nil, or_false] at hae
+      rcases hae with (rfl | rfl) | hae
+      · exact hlock
+      · exact hpath
+      · split at hae
+        · simp only [List.mem_singleton] at hae; rw [hae]; exact hpath
+        · simp at hae
+    · simp at hae
+
+theorem afterInit_contained (cwd storage id gen2 : Str) (hcwd : isAbs cwd = true) (act : Action)
+    (acc : List Access) (h : afterInit cwd (sessionRoot cwd storage) id gen2 act = some acc) :
+    ∀ a ∈ acc, Under (sessionRoot cwd storage) a.path := by
+  have key := fun op i r (hr : sessOp op cwd (sessionRoot cwd storage) i = some r) =>
+    C11_session_contained cwd storage i hcwd op r hr
+  unfold afterInit at h
+  simp only [bind, Option.bind_eq_some_iff] at h
+  obtain ⟨lk, hlk, h⟩ := h
+  cases act with
+  | none =>
+    simp only [pure, Option.some.injEq] at h
+    subst h; exact key _ _ _ hlk
+  | read =>
+    simp only [pure, Option.bind_eq_some_iff, Option.some.injEq] at h
+    obtain ⟨l, hl', s', hs', rfl⟩ := h
+    intro a ha
+    simp only [List.mem_append] at ha
+    rcases ha with (ha | ha) | ha
+    · exact key _ _ _ hlk a ha
+    · exact key _ _ _ hl' a ha
+    · exact key _ _ _ hs' a ha
+  | write =>
+    simp only [pure, Option.bind_eq_some_iff, Option.some.injEq] at h
+    obtain ⟨l, hl', s', hs', rfl⟩ := h
+    intro a ha
+    simp only [List.mem_append] at ha
+    rcases ha with (ha | ha) | ha
+    · exact key _ _ _ hlk a ha
+    · exact key _ _ _ hl' a ha
+    · exact key _ _ _ hs' a ha
+  | delete =>
+    simp only [pure, Option.bind_eq_some_iff, Option.some.injEq] at h
+    obtain ⟨d, hd', rfl⟩ := h
+    intro a ha
+    simp only [List.mem_append] at ha
+    rcases ha with ha | ha
+    · exact key _ _ _ hlk a ha
+    · exact key _ _ _ hd' a ha
+  | regenerate =>
+    simp only [pure, Option.bind_eq_some_iff, Option.some.injEq] at h
+    obtain ⟨d, hd', e, he', k, hk', rfl⟩ := h
+    intro a ha
+    simp only [List.mem_append] at ha
+    rcases ha with ((ha | ha) | ha) | ha
+    · exact key _ _ _ hlk a ha
+    · exact key _ _ _ hd' a ha
+    · exact key _ _ _ he' a ha
+    · exact key _ _ _ hk' a ha
+
+/-- **C11, whole request.**  Everything one request does through the session tool — the
+    existence test on the cookie's id, the fresh ids, the implicit lock, load, save, delete,
+    regenerate — stays below the storage directory, for every cookie value; the generated ids
+    need no assumption because they go through the same test. -/
+theorem C11_session_request_contained (cwd storage : Str) (hcwd : isAbs cwd = true)
+    (cookie : Option Str) (present : Bool) (gen1 gen2 : Str) (act : Action) (acc : List Access)
+    (h : sessionRequest cwd storage cookie present gen1 gen2 act = some acc) :
+    ∀ a ∈ acc, Under (sessionRoot cwd storage) a.path := by
+  have key := fun op i r (hr : sessOp op cwd (sessionRoot cwd storage) i = some r) =>
+    C11_session_contained cwd storage i hcwd op r hr
+  have keyA := fun i r (hr : afterInit cwd (sessionRoot cwd storage) i gen2 act = some r) =>
+    afterInit_contained cwd storage i gen2 hcwd act r hr
+  unfold sessionRequest at h
+  cases cookie with
+  | none =>
+    simp only [bind, pure, Option.bind_eq_some_iff, Option.some.injEq] at h
+    obtain ⟨e, he, r, hr, rfl⟩ := h
+    intro a ha
+    simp only [List.mem_append] at ha
+    rcases ha with ha | ha
+    · exact key _ _ _ he a ha
+    · exact keyA _ _ hr a ha
+  | some id =>
+    simp only [bind, Option.bind_eq_some_iff] at h
+    obtain ⟨e, he, h⟩ := h
+    split at h
+    · simp only [pure, Option.bind_eq_some_iff, Option.some.injEq] at h
+      obtain ⟨r, hr, rfl⟩ := h
+      intro a ha
+      simp only [List.mem_append] at ha
+      rcases ha with ha | ha
+      · exact key _ _ _ he a ha
+      · exact keyA _ _ hr a ha
+    · simp only [pure, Option.bind_eq_some_iff, Option.some.injEq] at h
+      obtain ⟨e1, he1, r, hr, rfl⟩ := h
+      intro a ha
+      simp only [List.mem_append] at ha
+      rcases ha with (ha | ha) | ha
+      · exact key _ _ _ he a ha
+      · exact key _ _ _ he1 a ha
+      · exact keyA _ _ hr a ha
+
+example : sessionRequest "/".toList "/t/sess".toList (some "abc".toList) true [] "0f".toList .write =
+    some [⟨.stat, "/t/sess/session-abc".toList⟩, ⟨.lock, "/t/sess/session-abc.lock".toList⟩,
+      ⟨.openR, "/t/sess/session-abc".toList⟩, ⟨.openW, "/t/sess/session-abc".toList⟩] := by decide
+
+/-! ### lexical containment is physical containment (symlink-free trees)
+
+  The code hands the UN-normalised string to the OS.  `resolve` walks it the way the kernel
+  does (".." = parent of the directory reached so far).  Whenever that walk arrives at an
+  existing directory or file, it arrives exactly at the components of `normpath p`; so a path
+  that is `Under root` can only ever reach objects inside `root`. -/
+
+theorem normStep_regular (st : List Str) (c : Str) (h1 : ¬ (c = [] ∨ c = dot)) (h2 : c ≠ dotdot) :
+    normStep true st c = c :: st := by
+  simp [normStep, h1, h2]
+
+theorem normStep_dotdot (st : List Str) (h : ∀ c ∈ st, c ≠ dotdot) :
+    normStep true st dotdot = st.tail := by
+  cases st with
+  | nil => simp [normStep, dotdot, dot]
+  | cons t rest =>
+    have ht : t ≠ dotdot := h t (by simp)
+    simp only [dotdot] at ht
+    simp [normStep, dotdot, dot, ht]
+
+theorem resolveFrom_lexical (t : Tree) (comps : List Str) :
+    ∀ (cur : List Str) (q : List Str), (∀ c ∈ cur, c ≠ dotdot) →
+      (resolveFrom t cur comps = .dir q ∨ resolveFrom t cur comps = .file q) →
+      q = (comps.foldl (normStep true) cur).reverse := by
+  induction comps with
+  | nil =>
+    intro cur q _ h
+    simp only [resolveFrom] at h
+    rcases h with h | h
+    · cases h; rfl
+    · cases h
+  | cons c rest ih =>
+    intro cur q hcur h
+    simp only [List.foldl_cons]
+    unfold resolveFrom at h
+    by_cases h1 : c = [] ∨ c = dot
+    · simp only [h1, if_true] at h
+      have : normStep true cur c = cur := by simp [normStep, h1]
+      rw [this]; exact ih cur q hcur h
+    · simp only [h1, if_false] at h
+      by_cases h2 : c = dotdot
+      · simp only [h2, if_true] at h
+        rw [h2, normStep_dotdot cur hcur]
+        exact ih cur.tail q (fun x hx => hcur x (List.mem_of_mem_tail hx)) h
+      · simp only [h2, if_false] at h
+        rw [normStep_regular cur c h1 h2]
+        have hn : ∀ x ∈ c :: cur, x ≠ dotdot := by
+          intro x hx
+          rcases List.mem_cons.1 hx with rfl | hx
+          · exact h2
+          · exact hcur x hx
+        by_cases hd : t.dirs.contains (c :: cur).reverse = true
+        · simp only [hd, if_true] at h
+          exact ih (c :: cur) q hn h
+        · simp only [hd] at h
+          by_cases hf : t.files.contains (c :: cur).reverse = true ∧ rest = []
+          · simp only [hf, and_self, if_true] at h
+            rcases h with h | h
+            · simp at h
+            · obtain ⟨_, hr⟩ := hf
+              subst hr
+              cases h; rfl
+          · simp only [hf, if_false] at h
+            rcases h with h | h <;> simp at h
+
+/-- What `stat`/`open` reach for an absolute path, when they reach anything, is the object
+    named by the components of `normpath p`. -/
+theorem resolve_lexical (t : Tree) (p : Str) (q : List Str) (hp : isAbs p = true)
+    (h : resolve t p = .dir q ∨ resolve t p = .file q) :
+    q = components (normpath p) := by
+  rw [normpath_abs_components p hp]
+  exact resolveFrom_lexical t (splitSlash p) [] q (by simp) h
+
+/-- **C11, physical form.**  In a symlink-free tree, a path the model hands to the OS that is
+    lexically under `root` reaches, if it reaches any existing object, an object whose location
+    starts with all the components of `root`. -/
+theorem C11_physical_contained (t : Tree) (root p : Str) (q : List Str) (hp : isAbs p = true)
+    (hu : Under root p) (h : resolve t p = .dir q ∨ resolve t p = .file q) :
+    components (normpath root) <+: q := by
+  rw [resolve_lexical t p q hp h]; exact hu.2.1
+
+/-- When the walk fails, it fails at the lexical normal form of the path cut after the failing
+    piece; in particular a failure at the LAST piece (the file `open(..., 'wb')` would create,
+    the lock file) is located at `components (normpath p)`. -/
+theorem resolveFrom_enoent (t : Tree) (comps : List Str) :
+    ∀ (cur : List Str) (q : List Str), (∀ c ∈ cur, c ≠ dotdot) →
+      resolveFrom t cur comps = .enoent q →
+      ∃ pre c post, comps = pre ++ c :: post ∧
+        q = ((pre ++ [c]).foldl (normStep true) cur).reverse := by
+  induction comps with
+  | nil => intro cur q _ h; simp [resolveFrom] at h
+  | cons c rest ih =>
+    intro cur q hcur h
+    unfold resolveFrom at h
+    by_cases h1 : c = [] ∨ c = dot
+    · simp only [h1, if_true] at h
+      obtain ⟨pre, c', post, e, hq⟩ := ih cur q hcur h
+      refine ⟨c :: pre, c', post, by simp [e], ?_⟩
+      have : normStep true cur c = cur := by simp [normStep, h1]
+      simp only [List.cons_append, List.foldl_cons, this]
+      exact hq
+    · simp only [h1, if_false] at h
+      by_cases h2 : c = dotdot
+      · simp only [h2, if_true] at h
+        obtain ⟨pre, c', post, e, hq⟩ :=
+          ih cur.tail q (fun x hx => hcur x (List.mem_of_mem_tail hx)) h
+        refine ⟨c :: pre, c', post, by simp [e], ?_⟩
+        simp only [List.cons_append, List.foldl_cons, h2, normStep_dotdot cur hcur]
+        exact hq
+      · simp only [h2, if_false] at h
+        have hn : ∀ x ∈ c :: cur, x ≠ dotdot := by
+          intro x hx
+          rcases List.mem_cons.1 hx with rfl | hx
+          · exact h2
+          · exact hcur x hx
+        by_cases hd : t.dirs.contains (c :: cur).reverse = true
+        · simp only [hd, if_true] at h
+          obtain ⟨pre, c', post, e, hq⟩ := ih (c :: cur) q hn h
+          refine ⟨c :: pre, c', post, by simp [e], ?_⟩
+          simp only [List.cons_append, List.foldl_cons, normStep_regular cur c h1 h2]
+          exact hq
+        · simp only [hd] at h
+          by_cases hf : t.files.contains (c :: cur).reverse = true ∧ rest = []
+          · simp only [hf, and_self, if_true] at h
+            simp at h
+          · simp only [hf, if_false] at h
+            refine ⟨[], c, rest, rfl, ?_⟩
+            simp only [List.nil_append, List.foldl_cons, List.foldl_nil,
+              normStep_regular cur c h1 h2]
+            cases h; rfl
+
+theorem resolve_create (t : Tree) (p : Str) (q : List Str) (hp : isAbs p = true)
+    (h : resolve t p = .enoent q) :
+    ∃ pre c post, splitSlash p = pre ++ c :: post ∧
+      q = (normStack true (pre ++ [c])).reverse ∧ (post = [] → q = components (normpath p)) := by
+  obtain ⟨pre, c, post, e, hq⟩ := resolveFrom_enoent t (splitSlash p) [] q (by simp) h
+  refine ⟨pre, c, post, e, hq, ?_⟩
+  intro hpost
+  rw [normpath_abs_components p hp, e, hpost]
+  exact hq
+
+example : resolve ⟨[["t"].map String.toList, ["t", "root"].map String.toList],
+      [["t", "root", "f.txt"].map String.toList]⟩ "/t/root/../root/./f.txt".toList =
+    .file (["t", "root", "f.txt"].map String.toList) := by decide
 
 end CpProofs.C11
